@@ -67,46 +67,98 @@ class HarnessResult:
         self.notes = []
 
 
+def _parse_block(r, b):
+    m = re.search(r"\*\* (\d+) of (\d+) failed", b)
+    if m:
+        r.checks = int(m.group(2))
+    m = re.search(r"\*\* (\d+) of (\d+) cover properties satisfied", b)
+    if m:
+        r.covers_sat, r.covers_total = int(m.group(1)), int(m.group(2))
+    m = re.search(r"Verification Time: ([0-9.]+)s", b)
+    if m:
+        r.time_s = float(m.group(1))
+    # regular format: "Check N: cls\n\t - Status: FAILURE\n\t - Description: "...""
+    for cm in re.finditer(r"Check \d+: ([^\n]*)\n\s*- Status: (FAILURE|UNDETERMINED|UNREACHABLE|UNSATISFIABLE)\n\s*- Description: \"((?:[^\"\\]|\\.)*)\"", b):
+        cls, st, desc = cm.group(1), cm.group(2), cm.group(3)
+        if ".cover." in cls or cls.endswith(".cover"):
+            if st in ("UNSATISFIABLE", "UNREACHABLE", "UNDETERMINED"):
+                r.notes.append("cover not satisfied: %s (%s)" % (desc, st))
+            continue
+        if st == "FAILURE":
+            r.failed.append(desc if ".unwind" not in cls else "UNWIND: " + desc + " @ " + cls)
+        elif st == "UNDETERMINED":
+            r.notes.append("undetermined: " + desc)
+    # terse format: "Failed Checks: <description>\n File: "...", line N, in f"
+    for fm in re.finditer(r"Failed Checks: ([^\n]*)\n\s*File: ([^\n]*)", b):
+        desc, where = fm.group(1).strip(), fm.group(2).strip()
+        d = ("UNWIND: " + desc) if desc.startswith("unwinding assertion") else desc
+        if d not in r.failed:
+            r.failed.append(d + "  @ " + where if not TAG.match(d) and not d.startswith("UNWIND") and not d.startswith("HARNESS") else d)
+    if "VERIFICATION:- SUCCESSFUL" in b:
+        r.status = "pass"
+    elif "VERIFICATION:- FAILED" in b:
+        r.status = "fail"
+    else:
+        r.status = "inconclusive"
+        r.notes.append("no verdict line (time-out, out of memory or CBMC crash)")
+    if re.search(r"CBMC failed|CBMC timed out|Status: ERROR|out of memory", b):
+        r.status = "inconclusive"
+        r.notes.append("CBMC error: " + ("out of memory" if "out of memory" in b else ("timed out" if "timed out" in b else "failed")))
+    if r.status == "fail" and not r.failed:
+        um = re.search(r"\*\* (\d+) of (\d+) cover properties satisfied", b)
+        if "unwinding" in b:
+            r.failed.append("UNWIND: unwinding assertion failed")
+        elif not um or um.group(1) == um.group(2):
+            r.status = "inconclusive"
+            r.notes.append("FAILED without an identifiable failed check")
+
+
 def parse(output, names):
-    """Parses the regular (non-terse) Kani output of one or several harnesses."""
+    """Parses Kani output of one or several harnesses (regular sequential format, or terse format of parallel runs
+    where each block is attributed through its `Thread N:` prefix)."""
     results = {n: HarnessResult(n) for n in names}
+
+    def get(name):
+        if name not in results:
+            results[name] = HarnessResult(name)
+        return results[name]
+
+    if re.search(r"^Thread \d+: Checking harness", output, re.M):
+        thread_h = {}
+        cur = None
+        buf = []
+        def flush():
+            if cur is not None and cur in thread_h and buf:
+                _parse_block(get(thread_h[cur]), "\n".join(buf))
+        for line in output.splitlines():
+            m = re.match(r"^Thread (\d+): Checking harness (\S+?)\.\.\.", line)
+            if m:
+                flush()
+                buf = []
+                cur = None
+                thread_h[int(m.group(1))] = m.group(2)
+                continue
+            m = re.match(r"^Thread (\d+):\s*$", line)
+            if m:
+                flush()
+                buf = []
+                cur = int(m.group(1))
+                continue
+            if re.match(r"^Thread \d+: ", line):
+                continue
+            if line.startswith("Manual Harness Summary") or line.startswith("Complete - "):
+                flush()
+                buf = []
+                cur = None
+                continue
+            if cur is not None:
+                buf.append(line)
+        flush()
+        return results
     blocks = re.split(r"^Checking harness ", output, flags=re.M)
     for b in blocks[1:]:
         name = b.split("...", 1)[0].strip()
-        r = results.get(name)
-        if r is None:
-            r = HarnessResult(name)
-            results[name] = r
-        m = re.search(r"\*\* (\d+) of (\d+) failed", b)
-        if m:
-            r.checks = int(m.group(2))
-        m = re.search(r"\*\* (\d+) of (\d+) cover properties satisfied", b)
-        if m:
-            r.covers_sat, r.covers_total = int(m.group(1)), int(m.group(2))
-        m = re.search(r"Verification Time: ([0-9.]+)s", b)
-        if m:
-            r.time_s = float(m.group(1))
-        # failed checks: "Check N: ...\n\t - Status: FAILURE\n\t - Description: "...""
-        for cm in re.finditer(r"Check \d+: ([^\n]*)\n\s*- Status: (FAILURE|UNDETERMINED|UNREACHABLE|UNSATISFIABLE)\n\s*- Description: \"((?:[^\"\\]|\\.)*)\"", b):
-            cls, st, desc = cm.group(1), cm.group(2), cm.group(3)
-            if ".cover." in cls or cls.endswith(".cover"):
-                if st in ("UNSATISFIABLE", "UNREACHABLE", "UNDETERMINED"):
-                    r.notes.append("cover not satisfied: %s (%s)" % (desc, st))
-                continue
-            if st == "FAILURE":
-                r.failed.append(desc if ".unwind" not in cls else "UNWIND: " + desc + " @ " + cls)
-            elif st == "UNDETERMINED":
-                r.notes.append("undetermined: " + desc)
-        if "VERIFICATION:- SUCCESSFUL" in b:
-            r.status = "pass"
-        elif "VERIFICATION:- FAILED" in b:
-            r.status = "fail"
-        else:
-            r.status = "inconclusive"
-            r.notes.append("no verdict line (time-out, out of memory or CBMC crash)")
-        if re.search(r"CBMC (timed out|failed)|Status: ERROR|out of memory|OOM", b):
-            r.status = "inconclusive"
-            r.notes.append("CBMC error / time-out")
+        _parse_block(get(name), b)
     return results
 
 
